@@ -279,17 +279,18 @@ def _construct_import_statement(
 
 
 @processing.fix
-def remove_unused_imports(source: str) -> str:
+def remove_unused_imports(source: str, preserve: Collection[str] = frozenset()) -> str:
     """Remove unused imports from source code.
 
     Args:
         source (str): Python source code
+        preserve (Collection[str]): Names that other files get from this one, imported or not
 
     Returns:
         str: Source code, with added imports removed
     """
     root = core.parse(source)
-    unused_imports = _get_unused_imports(root)
+    unused_imports = set(_get_unused_imports(root)) - set(preserve)
     completely_unused_imports, partially_unused_imports = _get_unused_imports_split(
         root, unused_imports
     )
